@@ -196,3 +196,8 @@ func Replay(t *testing.T, harnesses map[string]func()) {
 	}()
 	h()
 }
+
+// CtxTimeout / CtxCancelled inspect engine contexts; natively they are not
+// available (harnesses using them are engine-only).
+func CtxTimeout(ctx any) (time.Duration, bool) { return 0, false }
+func CtxCancelled(ctx any) bool                { return false }
